@@ -22,8 +22,8 @@ a = ap.parse_args()
 
 d = tempfile.mkdtemp(prefix="wgmut_", dir="/tmp")
 try:
-    subprocess.run(["rsync", "-a", "--exclude", ".git", "--exclude", "docs", "--exclude",
-                    "Models", "/repo/", d + "/"], check=True)
+    subprocess.run(["rsync", "-a", "--exclude", ".git", "--exclude", "docs",
+                    "/repo/", d + "/"], check=True)
     if a.patch:
         subprocess.run(["patch", "-p1", "-d", d, "-i", os.path.abspath(a.patch)], check=True,
                        stdout=subprocess.DEVNULL)
@@ -54,13 +54,7 @@ try:
         if r.returncode not in (0, 1, 2):
             print(r.stderr[-1500:])
     if a.suite:
-        r = subprocess.run(["/venv/bin/python", "-m", "pytest", "-q", "-p", "no:cacheprovider",
-                            "-x", "--timeout=900", "--deselect",
-                            "tests/Benchmarks/SingletSM_Z2/test_EOM.py", "--deselect",
-                            "tests/test_Boltzmann.py::test_Delta00", "--deselect",
-                            "tests/test_Boltzmann.py::test_solution", "tests"],
-                           cwd=d, env=dict(os.environ, PYTHONPATH=os.path.join(d, "src")),
-                           capture_output=True, text=True)
-        print("SUITE:", r.stdout.strip().splitlines()[-1] if r.stdout.strip() else r.stderr[-500:])
+        r = subprocess.run(["/verif/tools/run_suite.py", d], capture_output=True, text=True)
+        print(r.stdout.strip())
 finally:
     shutil.rmtree(d, ignore_errors=True)
